@@ -137,17 +137,23 @@ class Run:
                 f.write("  Model = \"%s\"\n  Geoms <- %s\n  TextLen = %d\n  SgrMax = %d\n  ModeMax = %d\n" %
                         (job["model"], job["geoms"][tier], job.get("textlen", {}).get(tier, 2),
                          job.get("sgrmax", {}).get(tier, 110), job.get("modemax", {}).get(tier, 40)))
-            f.write("  EmitVectors = %s\n" % ("TRUE" if job.get("emit", True) else "FALSE"))
+            if not job.get("simulate"):
+                f.write("  EmitVectors = %s\n" % ("TRUE" if job.get("emit", True) else "FALSE"))
             for k, v in job.get("constants", {}).items():
                 val = v[tier] if isinstance(v, dict) else v
-                f.write("  %s = %s\n" % (k, val))
+                if str(val).startswith("<-"):
+                    f.write("  %s %s\n" % (k, val))
+                else:
+                    f.write("  %s = %s\n" % (k, val))
             if job.get("view"):
                 f.write("VIEW %s\n" % job["view"])
             if job.get("constraint"):
                 f.write("CONSTRAINT %s\n" % job["constraint"])
             f.write("INVARIANTS " + " ".join(inv) + "\nCHECK_DEADLOCK FALSE\n")
         md = os.path.join(self.wd, "md-" + name + "-%d" % (id(job) % 100000))
-        cmd = tlc_cmd(["-workers", str(job.get("workers", 6)), "-metadir", md, "-cleanup", "-noGenerateSpecTE",
+        sim = job.get("simulate")
+        simargs = ["-simulate", "num=%d" % sim["num"][tier], "-depth", str(sim["depth"]), "-seed", str(self.seed)] if sim else []
+        cmd = tlc_cmd(["-workers", str(job.get("workers", 6))] + simargs + ["-metadir", md, "-cleanup", "-noGenerateSpecTE",
                        "-config", os.path.basename(cfg), module + ".tla"], job.get("xmx", "8g"))
         ports = job["ports"][tier]
         t0 = time.time()
@@ -171,6 +177,15 @@ class Run:
             shutil.rmtree(md, ignore_errors=True)
         out = "".join(tail)
         m = MC_STATS.search(out)
+        if sim:
+            ms = re.search(r"The number of states generated: (\d+)", out)
+            if "Error" in out or not ms:
+                raise ToolError("simulation %s failed (the specification violates its own invariant):\n%s" % (name, out[-3500:]))
+            with self.lock:
+                self.transitions += int(ms.group(1))
+            self.mc_runs.append({"module": module, "model": job["model"], "mode": "simulate", "num": sim["num"][tier], "depth": sim["depth"],
+                                 "states_generated": int(ms.group(1)), "invariants": inv, "wall_s": round(time.time() - t0, 1)})
+            return
         if "Model checking completed. No error has been found." not in out or not m:
             raise ToolError("MC run %s did not complete cleanly (the specification itself fails its own "
                             "property or could not be evaluated):\n%s" % (name, out[-3500:]))
